@@ -211,6 +211,10 @@ def run(tier, t0):
             deep.append(((i + r + common.seed()) % 12, (i * 7 + r) % 5) + d)
     for ch in common.chunks(deep, 32):
         tasks.append((work_cells, (ch, 4 ** 4 if tier == 'quick' else 4 ** 6)))
+    # very large fan-outs in ONE call (up to 2^20 children, thorough 2^22) from one parent of every aperture class
+    giants = [(), (7,), (0, 0), (6, 2), (11, 4), (3, 1, 2), (9, 3, 0, 1, 2, 3), (5, 2) + (1, 3) * 9]
+    for gp in giants:
+        tasks.append((work_cells, ([gp], 2 ** 20 if tier == 'quick' else 2 ** 22)))
     for r in range(0, R + 1):
         tasks.append((work_level, (r, -1)))
         for via in range(0, r):
@@ -222,7 +226,7 @@ def run(tier, t0):
     acc.n['nontrivial'] = acc.n['states']
     acc.sample({'pair': [0, 3], 'get_num_children': 80, 'cells_checked': 'all 12 faces'})
     acc.sample({'level': R, 'get_num_cells': rm.num_cells(R), 'compared_with': 'len(set(cell_to_children(0, r))) and sums over each coarser level'})
-    rule = (f'all 32x32 resolution pairs; every cell of resolutions -1..3 x child levels (<= {maxkids} children) and G1[basic] seeds at 4..29; '
+    rule = (f'all 32x32 resolution pairs; every cell of resolutions -1..3 x child levels (<= {maxkids} children) and G1[basic] seeds at 4..29; eight parents of every aperture class (world, face, quintants, resolutions 2, 5, 19) x every child level with <= 2^20 (thorough 2^22) children in one call; '
             f'levels 0..{R} enumerated from the world cell and re-summed over coarser levels, also through uncompact of mixed-level covers given in descending and interleaved order; areas for r = 0..30')
     return common.finish(PID, LEVEL, tier, acc, t0, rule, [
         'authalic sphere area taken as 4*pi*6371007.2^2 (the constant documented by the package)',
